@@ -2219,11 +2219,15 @@ impl SubRule {
             let mut m = true;
             while *state_index < states.len() {
                 #[cfg(feature = "verif")] crate::verif::tick(133);
+                // NOTE: input_match_item advances state_index itself; past the last segment only a boundary can match
+                if word.out_of_bounds(*pos) && states[*state_index].kind != ParseElement::SyllBound {
+                    m = false;
+                    break;
+                }
                 if !self.input_match_item(captures, pos, state_index, word, states)? {
                     m = false;
                     break;
                 }
-                *state_index += 1;
             }
             if m {
                 return Ok(true)
